@@ -63,6 +63,12 @@ def main():
                                 table.setdefault(enc.dec_cat(lhs), []).append(enc.dec_cat(rhs))
                             rs = mod.apply_unary_rules(x, table)
                     o['res'] = enc_res(rs)
+                    # a caller may do what it likes with the list it got (the property says the function returns the same list
+                    # on every call): emptying it must not affect later calls
+                    try:
+                        del rs[:]
+                    except TypeError:
+                        pass
                 except Exception as e:
                     o['raised'] = True
                     o['exc'] = repr(e)[:200]
